@@ -536,14 +536,15 @@ class DataQuerent(object):
         if not (hasattr(node, 'members') or hasattr(node, 'attributes') or hasattr(node, 'factor')):
             raise QueryError('{} has no descendant nodes'.format(node.descriptor))
 
+        # The factor of a delayed replication precedes its members in the data
         sub_nodes = []
-        if hasattr(node, 'members'):
-            child_sub_nodes = self.filter_for_child_sub_nodes(node, path_components)
-            sub_nodes += child_sub_nodes
-
         if hasattr(node, 'attributes') or hasattr(node, 'factor'):
             attrib_sub_nodes = self.filter_for_attribute_sub_nodes(node, path_components)
             sub_nodes += attrib_sub_nodes
+
+        if hasattr(node, 'members'):
+            child_sub_nodes = self.filter_for_child_sub_nodes(node, path_components)
+            sub_nodes += child_sub_nodes
 
         return sub_nodes
 
